@@ -112,7 +112,7 @@ var c07Payloads = []string{"none", "none", "garbage", "truncated", "badsig", "wr
 	"multi-signer", "self-withdraw", "self-exec", "gas-hog", "empty-tx", "withdraw-then-fail", "send-and-withdraw", "reentrant-finalize", "withdraw-native", "withdraw-and-send", "bad-signer", "mutated", "handler-runtime-error", "multibyte-error"}
 
 func genC07Case(rt *rapid.T) *c07Case {
-	tc := newTwoChain(tcOpts{nExecutors: 1, fault: true})
+	tc := newTwoChain(tcOpts{nExecutors: rapid.IntRange(1, 3).Draw(rt, "executors"), fault: true}) // the relayer below is the first listed one
 	l2 := tc.l2
 	cs := &c07Case{tc: tc, sent: map[string]math.Int{}, withdrawn: math.ZeroInt()}
 	for _, u := range tc.users {
